@@ -506,6 +506,61 @@ def compare(s, impl, model):
     return None, nb, tot
 
 
+def assembled_solves(ctx):
+    """the systems the assemblers really produce: generated problems of the three physics (planar / axisymmetric, all units) and
+    time-harmonic magnetics with solid conductors in a series circuit down to very low frequencies are solved by the real
+    tools with the guarded solve-log hook on; every solve must leave a TRUE relative residual |b - A V| / |b| below
+    10 * Precision (Precision as the solver had it).  Returns (runs, log lines, worst ratio)."""
+    from props import c11
+    import femgen
+    rng = vlib.Rng(ctx.seed + 23)
+    log = os.path.join(ctx.work, "assembled-solvelog")
+    plan = []
+    for k in range(6 if ctx.quick() else 36):
+        plan.append((["fee", "feh", "fem"][k % 3], (k // 3) % 2 == 1, 0.0, None))
+    for k, f in enumerate([30.0, 1e-2, 1e-6, 1e-9] if ctx.quick() else [400.0, 30.0, 1.0, 1e-2, 1e-4, 1e-6, 1e-8, 1e-9, 1e-11]):
+        for axi in (False, True):
+            plan.append(("fem", axi, f, ["microns", "millimeters", "meters", "inches"][(k + axi) % 4]))
+    runs = lines = 0
+    worst = 0.0
+    for k, (kind, axi, f, units) in enumerate(plan):
+        st = rng.randint(0, 10 ** 9)
+        S = dict(Vl=(1e-3 if kind == "fem" else 2.0), qv=(1.0 if kind == "fem" else 1e-3), V1=5.0, V2=-3.0, qs=1e-6, Hc=(1e4 if not f else 0.0))
+        p = c11.make_variant(st, kind, axi, S, f)
+        if units:
+            p["units"] = units
+        if os.path.exists(log):
+            os.remove(log)
+        wd = os.path.join(ctx.work, "asm%d" % k)
+        os.makedirs(wd, exist_ok=True)
+        fpath = os.path.join(wd, "prob" + {"fee": ".fee", "feh": ".feh", "fem": ".fem"}[kind])
+        femgen.write(p, fpath)
+        rc, out, err = vlib.sh([ctx.snap.tool("fmesher"), fpath], cwd=wd, timeout=120)
+        if rc != 0:
+            ctx.fail("fmesher failed on a well-formed problem (rc=%d)" % rc, problem=p); continue
+        rc, out, err = vlib.sh([ctx.snap.tool({"fee": "esolver", "feh": "hsolver", "fem": "fsolver"}[kind]), fpath[:-4]], cwd=wd, timeout=300,
+                               env={"XFEMM_VERIF_SOLVELOG": log})
+        if rc != 0:
+            ctx.fail("solver failed on a well-formed problem (rc=%d): %s" % (rc, (out + err)[-300:]), problem=p); continue
+        runs += 1
+        if not os.path.exists(log):
+            ctx.fail("the solve-log hook wrote nothing for a solver run (hook lost?)", problem=p); continue
+        for line in open(log):
+            t = line.split()
+            if len(t) != 5:
+                continue
+            lines += 1
+            rr, pr = float(t[2]), float(t[3])
+            if pr > 0:
+                worst = max(worst, rr / pr)
+            if not (rr <= 10 * pr):
+                ctx.fail("assembled system (%s, %s%s, %s): the %s solver returned a vector whose true relative residual is %.3g, Precision %.3g"
+                         % (kind, "axisymmetric" if axi else "planar", (", %g Hz" % f) if f else "", p["units"], t[0], rr, pr),
+                         problem=p, logline=line.strip(), signature="assembled-residual:%s" % t[0])
+                break
+    return runs, lines, worst
+
+
 def correspond(ctx):
     from props import c09_complex
     rng = ctx.rng
@@ -562,19 +617,24 @@ def correspond(ctx):
             dis.append(dict(what="spars correspondence: " + msg, script=s))
     cdis, cstat = c09_complex.correspond(ctx)
     dis += cdis
+    aruns, alines, aworst = assembled_solves(ctx)
     cov = ctx.res.cov
     cov["evaluations"] = len(scripts) + cstat["scripts"]
     cov["distinct_nontrivial"] = len(nontriv) + cstat["distinct"]
     cov["rule"] = ("seeded op scripts for CBigLinProb/CBigComplexLinProb (put/addto/get in random order, FE-like SPD "
                    "assembly with random insertion order and bandwidth hints, SetValue/Periodicity/AntiPeriodicity "
                    "sequences, MultA, MultPC, cold and warm solves); non-trivial = more than 3 ops, distinct = "
-                   "distinct script text")
+                   "distinct script text; plus real solver runs on generated problems (three physics, time-harmonic magnetics with "
+                   "solid series conductors from 400 Hz down to 1e-11 Hz) with the true residual of every solve logged by the guarded hook")
     cov["input_distribution"] = dict(kinds=kinds, complex=cstat)
     cov["samples"] = [to_text(scripts[i]).split("\n")[:12] for i in range(min(2, len(scripts)))]
     cov["values_compared"] = tot + cstat["values"]
     cov["bit_identical"] = nb + cstat["bit_identical"]
     cov["solve_log_entries"] = nlog
     cov["worst_residual_over_precision"] = worst
+    cov["assembled_problem_runs"] = aruns
+    cov["assembled_solve_log_entries"] = alines
+    cov["assembled_worst_residual_over_precision"] = aworst
     return dis
 
 
